@@ -333,7 +333,7 @@ def run_check(modname, tier, seed):
     if cj is not None:
         job, clevel = cj()
         cov.start()
-        r = run_job(mod, job, clevel, seed, timeout_ms, None, canary=True, max_viol=1)
+        r = run_job(mod, job, clevel, seed, timeout_ms, time.time() + 120, canary=True, max_viol=1)   # never unbounded
         cov.stop()
         canary_ok = any(v.get('replayed') for v in r['violations'])
         canary_n = len(r['violations'])
